@@ -1741,6 +1741,15 @@ func r5C03(c *Ctx) {
 			FTrue(MCall("reflect.DeepEqual")),
 			FFalse(MCall("Time.IsZero", MField("DeletionTimestamp"))),
 		)
+		if strings.Contains(s.fn, "/gateway.") {
+			// the HTTPRoute is the user's object: one that is being deleted but still held by a finalizer
+			// is still served, so "terminating" is no reason to leave the canary backends in it (the
+			// canary Ingress, in contrast, is the provider's own object: terminating means going away)
+			allowed = FOr(
+				FTrue(MCall("errors.IsNotFound")),
+				FTrue(MCall("reflect.DeepEqual")),
+			)
+		}
 		bad := ""
 		for _, ret := range returnsOf(fn) {
 			if ret.Block() == fn.Recover || len(ret.Results) != 2 {
